@@ -46,3 +46,9 @@ Example C02_example :
   fget s 1 [2%nat] = B 1 1 /\ fget s 1 [1%nat] = unknown /\ wf_fkbb c02_kb = true.
 Proof. vm_compute. repeat split; reflexivity. Qed.
 Print Assumptions C02_example.
+
+(* the well-formedness hypothesis is the one the executable model checks on every scenario it runs *)
+Theorem C02_ground_sound_checked : forall k v roots ops s, wf_fkbb k = true -> gconsistent k v -> FSound s v ->
+  FSound (fexec_ops k roots s ops) v.
+Proof. intros k v roots ops s Hwf. apply C02_ground_sound. apply wf_fkbb_sound. exact Hwf. Qed.
+Print Assumptions C02_ground_sound_checked.
